@@ -80,6 +80,9 @@ def rand_text(rng, markup=False, tabs=False, hostile=None):
                                (rng.choice([" ", "  ", "\t" if tabs else " "]) if trail and rng.random() < 0.5 else "")
                                for i, x in enumerate(lines)))
     text = ("\n\n" if rng.random() < 0.7 else "\n").join(paras)
+    if rng.random() < 0.12:
+        # detached comments reach wrap() unstripped: the text may start with a run of blanks or a tab
+        text = rng.choice(["  ", "   ", "    ", "\t" if tabs else "     "]) + text
     if hostile:
         text = hostile(rng, text)
     return text
